@@ -78,6 +78,9 @@ func checkC08(p *Prog, r *Report) {
 	c08Clip(p, r, "C08.R5")
 	// uptake of a day without demand must be zero, not yesterday's (shared with C01.R5)
 	dayHandover(p, r, "C08.R6")
+	// a NaN compares false with every cap and bound: the partial operations of the evapotranspiration routine stay
+	// inside their domains (shared machinery with C06.R6)
+	domainRule(p, r, "C08.R7", "the evapotranspiration routine", []string{"hermes.Evatra"}, 60)
 }
 
 func c08Caps(p *Prog, r *Report, x *Exec) {
